@@ -14,6 +14,7 @@ dir="$(readlink -f "$1")"; shift
 wt=/tmp/seed-confirm
 cd "$wt" || { echo "no worktree $wt"; exit 2; }
 git checkout -q -- . ; git clean -fdq -- lang cli editor lib docs 2>/dev/null
+git checkout -q --detach "$(git -C /repo rev-parse HEAD)"
 if ! git apply --check "$dir/patch.diff" 2>/dev/null; then echo "CONFIRM $(basename "$dir") patch-does-not-apply"; exit 1; fi
 git apply "$dir/patch.diff"
 trap 'cd $wt && git checkout -q -- . && git clean -fdq -- lang cli editor lib docs 2>/dev/null' EXIT
